@@ -74,6 +74,31 @@ func (ldbw *levelDBWrapper) changesInternal(prefix []byte) (Patch, error) {
 	panic("unimplemented")
 }
 
+// levelDBBatchWrapper collects writes into a leveldb.Batch, to be written atomically by the caller.
+type levelDBBatchWrapper struct {
+	batch *leveldb.Batch
+}
+
+func (bw *levelDBBatchWrapper) Get(key []byte) ([]byte, error) {
+	panic("unimplemented")
+}
+func (bw *levelDBBatchWrapper) Has(key []byte) (bool, error) {
+	panic("unimplemented")
+}
+func (bw *levelDBBatchWrapper) Put(key, value []byte) error {
+	bw.batch.Put(key, value)
+	return nil
+}
+func (bw *levelDBBatchWrapper) NewIterator(prefix []byte) StorageIterator {
+	panic("unimplemented")
+}
+func (bw *levelDBBatchWrapper) changesInternal(prefix []byte) (Patch, error) {
+	panic("unimplemented")
+}
+func newLevelDBBatchWrapper(batch *leveldb.Batch) DB {
+	return enableDelete(&levelDBBatchWrapper{batch: batch})
+}
+
 func newLevelDBSnapshotWrapper(ldb *leveldb.Snapshot) db {
 	return newMergedDb([]db{
 		newMemDBInternal(),
